@@ -12,9 +12,14 @@ use state::*;
 use utils::*;
 
 mod c05;
+mod canon;
 mod framework;
 mod gate;
+mod gen;
 mod irc;
+mod model;
+mod oracle;
+mod stepchecks;
 mod net;
 mod rt;
 mod world;
@@ -24,7 +29,11 @@ use std::sync::Arc;
 use world::*;
 
 fn registry() -> Vec<Arc<dyn Check>> {
-    vec![Arc::new(c05::C05)]
+    let mut v: Vec<Arc<dyn Check>> = vec![Arc::new(c05::C05)];
+    for id in ["C01", "C03", "C04", "C07", "C08", "C09", "C10", "C11", "C15", "C16", "C19"] {
+        v.push(Arc::new(stepchecks::StepCheck { id, quick: 8000, thorough: 300_000 }));
+    }
+    v
 }
 
 fn find_check(id: &str) -> Option<Arc<dyn Check>> {
